@@ -387,6 +387,10 @@ class LTop(Component):
     elif how == "setitem-after":
       s.regs = [LReg()] + [None] * (n - 1)
       for i in range(1, n): s.regs[i] = LReg()
+    elif how == "overwrite-with-int":
+      s.regs = [LReg() for _ in range(n)]
+      s.w = Wire(8); s.w //= s.in_
+      s.w = 0                       # a typo for  s.w //= 0
     elif how == "append-spare":
       # the late elements are not touched again by construct()
       s.regs = [LReg() for _ in range(n)]
@@ -408,7 +412,7 @@ def run_listbuild_case(sh, case):
   hook - the design is refused, or every object still has a name that evaluates back"""
   from vlib import specgen as G
   rng = sh.rng("listbuild", case)
-  how = rng.choice(["assign-complete", "plus-equal", "plus-equal", "plus-equal-wires", "append-after", "setitem-after", "append-spare", "setitem-spare"])
+  how = rng.choice(["assign-complete", "plus-equal", "plus-equal", "plus-equal-wires", "append-after", "setitem-after", "append-spare", "setitem-spare", "overwrite-with-int"])
   n = rng.randrange(2, 6)
   mod = G.load_source(LISTBUILD_SRC, "c14lb")
   try:
@@ -431,6 +435,14 @@ def run_listbuild_case(sh, case):
         sh.violation("eval-of-name-raised", {"name": r[:120], "error": repr(e)[:120], "stream": "listbuild", "how": how}, case=("listbuild", case)); return
       if back is not o:
         sh.violation("eval-of-name-yields-other-object", {"name": r, "stream": "listbuild", "how": how}, case=("listbuild", case)); return
+    # every member of every net is a named object of the design, too (a field overwritten with a plain value would leave one behind)
+    for wr_, net_ in top.get_all_value_nets():
+      for x in net_:
+        if type(x).__name__ == "Const": continue
+        try: back = eval(repr(x), {"s": top})
+        except Exception as e: back = e
+        if back is not x:
+          sh.violation("eval-of-name-yields-other-object", {"name": repr(x), "got": repr(back)[:80], "stream": "listbuild", "how": how, "object": "net member"}, case=("listbuild", case)); return
     for c_ in comps:
       if not hasattr(c_, "in_"):
         sh.violation("component-of-a-list-was-never-constructed", {"how": how, "component": repr(c_)[:100]}, case=("listbuild", case)); return
